@@ -5,7 +5,7 @@ the agent's worktree.  Usage: seedround.py <PID> <suffix> [<check PID>...]"""
 import json, os, shutil, subprocess, sys
 pid, suf = sys.argv[1], sys.argv[2]
 checks = sys.argv[3:] or [pid]
-src = "/tmp/w2_%s/SEED" % pid
+src = "/tmp/%s_%s/SEED" % (os.environ.get("SEED_WT", "w2"), pid)
 dst = "/verif/seeded/%s-%s" % (pid, suf)
 if os.path.isdir(src):
     os.makedirs(dst, exist_ok=True)
@@ -21,7 +21,7 @@ meta["confirmed_by_me"]["command"] = "python3 tools/seedconfirm.py " + dst
 meta.setdefault("checks_run_against_it", {}).update(res)
 json.dump(meta, open(os.path.join(dst, "meta.json"), "w"), indent=1)
 os.remove(os.path.join(dst, "confirm.json")); os.remove(os.path.join(dst, "result.json"))
-wt = "/tmp/w2_%s" % pid
+wt = "/tmp/%s_%s" % (os.environ.get("SEED_WT", "w2"), pid)
 if os.path.isdir(wt) and conf.get("confirmed"):
     subprocess.run(["git", "-C", "/repo", "worktree", "remove", "--force", wt])
 print("SEED", pid, suf, "confirmed" if conf.get("confirmed") else "NOT CONFIRMED", {k: (v["exit"], len(v["violations"])) for k, v in res.items()})
